@@ -57,6 +57,10 @@ def gen_probe_op(rng, trs_pool=None):
             kw["parse_qq"] = True
         return {"p": "desc", "text": corpus.gen_desc(rng),
                 "config": opgen.gen_config_text(rng, hi=2), "kw": kw}
+    if r < 0.245:
+        return {"p": "desc_pt", "text": corpus.gen_desc(rng),
+                "config": opgen.gen_config_text(rng, hi=2),
+                "pkw": opgen.gen_kw(rng, opgen.TRACT_PARSE_KW, 0, 1)}
     if r < 0.30:
         return {"p": "desc_wait", "text": corpus.gen_desc(rng),
                 "config": opgen.gen_config_text(rng, hi=2),
@@ -123,6 +127,8 @@ def gen_probe_op(rng, trs_pool=None):
 def _perturb(rng, op):
     """Same text / strings as ``op`` but other settings (config, keywords)."""
     op = copy.deepcopy(op)
+    if isinstance(op.get("config"), dict):
+        return op
     if "text" in op and op["p"] in ("desc", "desc_wait") and rng.random() < 0.15:
         # someone asked for the layout of the very same text before
         return {"p": "deduce", "text": op["text"],
@@ -194,6 +200,17 @@ def _shadow_pair(rng):
              "config": opgen.settings_to_text(base) or None}
         b = {"p": "desc", "text": text, "kw": dict(kw),
              "config": opgen.settings_to_text(with_)}
+    elif rng.random() < 0.35:
+        block = rng.choice(("NE/4", "N/2NE/4, Lots 1, 1", corpus.gen_block(rng)))
+        head = rng.choice(("T154N-R97W Secs 14 and 15: ",
+                           "T154-R97 Sec 14: ",
+                           "T154N-R97W Sec 14: "))
+        tail = rng.choice(("", "\nSec 16 NE/4 lying north of the river"))
+        a = {"p": "tract", "text": block, "trs": corpus.gen_trs_string(rng),
+             "config": None, "kw": {"parse_qq": True}}
+        b = {"p": "desc_pt", "text": head + block + tail, "config": None,
+             "pkw": {}}
+        return (a, b)
     else:
         name = rng.choice(sorted(corpus.TRACT_WITNESS))
         if name == "parse_qq":
@@ -215,6 +232,34 @@ def gen_plan(rng):
     if rng.random() < 0.08:
         p_op, shadow = _shadow_pair(rng)
         probe[0] = p_op
+    elif rng.random() < 0.06:
+        # the caller keeps one Config object and hands it to an earlier call
+        # (under other MasterConfig values or with other keywords) and to the
+        # probe
+        ctext = opgen.gen_config_text(rng, ("default_ns", "default_ew",
+                                            "ocr_scrub", "clean_qq",
+                                            "parse_qq", "qq_depth_min"),
+                                      lo=0, hi=2, none_ok=False)
+        pooled = {"pool": 0, "text": ctext}
+        tw = _gen_tw(rng)
+        probe[0] = rng.choice((
+            {"p": "tract_from", "text": corpus.gen_block(rng), "tw": tw,
+             "config": pooled, "kw": {}},
+            {"p": "desc", "text": corpus.gen_desc(rng), "config": pooled,
+             "kw": {}},
+            {"p": "tract", "text": corpus.gen_block(rng),
+             "trs": rng.choice(trs_pool), "config": pooled, "kw": {}}))
+        shadow = rng.choice((
+            {"p": "tract_from", "text": "NE/4", "tw": _gen_tw(rng),
+             "config": pooled,
+             "kw": rng.choice(({}, {"default_ns": "s"}, {"default_ew": "e"},
+                               {"parse_qq": True}))},
+            {"p": "tract", "text": "Lots 1, 1", "trs": "1n1w01",
+             "config": pooled, "kw": {"parse_qq": rng.random() < 0.5}},
+            {"p": "desc", "text": "T1-R1 Sec 1: NE/4", "config": pooled,
+             "kw": {"parse_qq": True}}))
+        if rng.random() < 0.6:
+            shadow = {"__wrap_mc": {"ns": "s", "ew": "e"}, "probe": shadow}
     kinds = [k for k in ("other", "prewarm", "cache", "mc", "mutate", "fail",
                          "interrupt") if rng.random() < 0.6]
     n = rng.randint(0, 15) if kinds else 0
@@ -285,7 +330,14 @@ def gen_plan(rng):
             prior.append({"o": "interrupt", "at": rng.choice(
                 (rng.randint(1, 60), rng.randint(1, 600), rng.randint(1, 2500)))})
             prior.append({"o": "other", "probe": gen_probe_op(rng, trs_pool)})
-    if shadow is not None:
+    if shadow is not None and "__wrap_mc" in shadow:
+        # ... while MasterConfig is toggled, and restored afterwards
+        prior += [{"o": "mc_set", "ns": shadow["__wrap_mc"]["ns"],
+                   "ew": shadow["__wrap_mc"]["ew"]},
+                  {"o": "other", "probe": shadow["probe"]},
+                  {"o": "mc_restore"}]
+        mc_dirty = False
+    elif shadow is not None:
         prior.insert(rng.randint(0, len(prior)), {"o": "other", "probe": shadow})
     if rng.random() < 0.025:
         # counter-boundary mode: the creation counter is driven to just below
@@ -320,13 +372,33 @@ def gen_plan(rng):
 # execution
 # --------------------------------------------------------------------------
 
+_CFG_POOL = {}
+
+
+def _cfg(pytrs, c):
+    """A plan-level config: text, None, or {"pool": k, "text": t} meaning the
+    caller keeps ONE Config object (per k) and passes it to several calls."""
+    if isinstance(c, dict) and "pool" in c:
+        key = (c["pool"], c["text"])
+        if key not in _CFG_POOL:
+            _CFG_POOL[key] = pytrs.Config(c["text"])
+        return _CFG_POOL[key]
+    return c
+
+
 def _run_probe_op(pytrs, op, hooks=None):
     """Returns (value_to_compare, object_for_pool)."""
+    if isinstance(op.get("config"), dict):
+        op = dict(op, config=_cfg(pytrs, op["config"]))
     p = op["p"]
     if p == "desc":
         d = pytrs.PLSSDesc(op["text"], config=op["config"], **op["kw"])
         return [enc(d), d.pretty_desc(), d.quick_desc(),
                 [t.pretty_twprge() for t in d.tracts]], d
+    if p == "desc_pt":
+        d = pytrs.PLSSDesc(op["text"], config=op["config"])
+        d.parse_tracts(**op.get("pkw", {}))
+        return [enc(d), d.pretty_desc()], d
     if p == "desc_wait":
         d = pytrs.PLSSDesc(op["text"], config=op["config"], wait_to_parse=True)
         if hooks:
@@ -489,6 +561,23 @@ def _extract_record(pytrs, src, how):
     return None
 
 
+def _repoint_trs(pytrs, src, how):
+    """A caller re-using its own TRS objects for another Twp/Rge/Sec."""
+    n = 0
+    elems = []
+    if isinstance(src, pytrs.TRSList):
+        elems = list(src)[:3]
+    elif isinstance(src, pytrs.TRS):
+        elems = [src]
+    for t in elems:
+        if how % 2:
+            t.trs = "12n34w05"
+        else:
+            t.set_twprgesec(12, 34, 5, default_ns="s", default_ew="e")
+        n += 1
+    return n
+
+
 def _mutate_config_of(pytrs, src, how):
     """A caller editing the Config object an earlier object handed out."""
     cfgs = []
@@ -498,14 +587,19 @@ def _mutate_config_of(pytrs, src, how):
         cfgs += [t.config for t in list(src.tracts)[:2]]
     if isinstance(src, pytrs.TractList):
         cfgs += [t.config for t in list(src)[:2]]
+    shared = {id(x) for x in _CFG_POOL.values()}
+    n_edited = 0
     for c in cfgs:
+        if id(c) in shared:
+            continue     # editing that one legitimately changes later calls
         if isinstance(c, pytrs.Config):
+            n_edited += 1
             c.qq_depth = 1
             c.clean_qq = True
             c.default_ns, c.default_ew = "s", "e"
             c.layout = "copy_all"
             c.parse_qq = bool(how % 2)
-    return len(cfgs)
+    return n_edited
 
 
 def _do_fail(pytrs, what):
@@ -658,6 +752,9 @@ def run(prior, probe, mc_between=None, with_prior=True, mc_script=None):
                         if op["how"] % 3 == 0:
                             if _mutate_config_of(pytrs, src, op["how"]):
                                 bump("config_objects_edited")
+                        if op["how"] % 4 == 1:
+                            if _repoint_trs(pytrs, src, op["how"]):
+                                bump("trs_objects_repointed")
                         after = [enc(x, ctx, full=True) for x in pool]
                         for j, (b, a) in enumerate(zip(before, after)):
                             if pool[j] is src and isinstance(
@@ -665,6 +762,8 @@ def run(prior, probe, mc_between=None, with_prior=True, mc_script=None):
                                           pytrs.TractList, dict, list)):
                                 continue
                             if _shares_tracts(pytrs, pool[j], src):
+                                continue
+                            if _shares_parts(pytrs, pool[j], src):
                                 continue
                             path, _ = compare(b, a, exact=True)
                             if path is not None:
@@ -748,6 +847,29 @@ def run(prior, probe, mc_between=None, with_prior=True, mc_script=None):
     return {"outcomes": outcomes, "mc_log": mc_log, "state": state,
             "fired": fired, "isolation": isolation, "steps": steps,
             "mc_leaks": mc_leaks}
+
+
+def _shares_parts(pytrs, obj, src):
+    """obj is src, or holds the same TRS objects / the same Config object
+    (a caller's own aliasing) -- then a change made to src legitimately
+    shows on obj."""
+    def parts(x):
+        out = set()
+        if isinstance(x, pytrs.TRS):
+            out.add(id(x))
+        if isinstance(x, pytrs.TRSList):
+            out |= {id(t) for t in x}
+        c = getattr(x, "config", None)
+        if isinstance(c, pytrs.Config):
+            out.add(id(c))
+        if isinstance(x, pytrs.PLSSDesc):
+            out |= {id(t.config) for t in x.tracts}
+        if isinstance(x, pytrs.TractList):
+            out |= {id(t.config) for t in x}
+        return out
+    if obj is src and isinstance(src, (pytrs.TRS, pytrs.TRSList)):
+        return True
+    return bool(parts(obj) & parts(src))
 
 
 def _shares_tracts(pytrs, obj, src):
